@@ -502,6 +502,8 @@ Check(s, e) ==
          IN IF e.call = "rmdir" THEN (IF okDir THEN "" ELSE "ForeignUntouched")
             ELSE (IF okFile \/ IsDir(IF s.ph = "idle" THEN s.disk ELSE s.pre, e.p) THEN "" ELSE "ForeignUntouched")
     [] e.ev = "par_fail" -> IF e.deadlock THEN "NoDeadlock" ELSE "NoSpuriousException"
+    \* a thread removed a directory that a sibling call of the same `par` had created (mechanism-level, C09/C14)
+    [] e.ev = "foreign_rmdir" -> "CleanupRemovesOwnDirsOnly"
     [] OTHER -> "H:unknown-event"
 
 (* every clause the event violates (only build ends have several) *)
